@@ -17,4 +17,12 @@ theorem clear_translated {R : Type} (s : St R) :
       Flow.cont ((Reservoir.clear s).rng, (Reservoir.clear s).res.toList, (Reservoir.clear s).i, (Reservoir.clear s).skipUntil) :=
   reservoir_clear_eq s
 
+/-- `Extend::extend` as translated (`for elem in iter { self.add(elem) }`) is the left fold of the model's `add`, so the
+theorems of C18 about every history of adds cover a sampler filled through `extend` as well -/
+theorem extend_translated {R : Type} (I : RngI R) (s : St R) (xs : List Nat) (hk : s.k * 4 < 2 ^ 64) :
+    reservoir_extend R I s.k s.rng s.res.toList s.i s.skipUntil xs =
+      match xs.foldlM (Reservoir.add I) s with
+      | none => Flow.panic
+      | some s' => Flow.cont (s'.rng, s'.res.toList, s'.i, s'.skipUntil) := reservoir_extend_eq I s xs hk
+
 end Pds.Tie.C18
